@@ -72,6 +72,7 @@ def lean_sources() -> list[Path]:
     files = [LEAN / "Driver.lean", LEAN / "AsphaltModel.lean", LEAN / "AsphaltProofs.lean"]
     files += sorted((LEAN / "AsphaltModel").rglob("*.lean"))
     files += sorted((LEAN / "AsphaltProofs").rglob("*.lean"))
+    files += sorted((LEAN / "DriverLib").rglob("*.lean"))
     return [f for f in files if f.exists()]
 
 
